@@ -631,24 +631,42 @@ func c04Decoder(ctx *core.Ctx, r *RT, pr *bounds.Prover, dec *ssa.Function) {
 			}
 		}
 	})
+	// … or the remaining buffer itself is the loop-carried value (`for len(buff) > 0 { …; buff = rest }`)
+	endSlice := false
+	ssax.Instrs(dec, func(in ssa.Instruction) {
+		ph, ok := in.(*ssa.Phi)
+		if !ok || !inCycle(ph) {
+			return
+		}
+		if _, isSl := ph.Type().Underlying().(*types.Slice); !isSl {
+			return
+		}
+		for _, ed := range ph.Edges {
+			if ssax.Strip(ed) == ssa.Value(buff) {
+				endSlice = true
+			}
+		}
+	})
 	type rd struct {
 		kind string // prefix | payload
 		f    flatInstr
-		sl   *ssa.Slice
+		src  ssa.Value // the slice value read (prefix: the argument of Uint32; payload: the operand of string(…))
 		val  ssa.Value // prefix: the Uint32 result; payload: the string value
 	}
+	// windows: every slice value derived from the decoder's buffer is [lo, hi) of that buffer
+	rootWin := c04win{root: buff}
 	var evs []rd
 	for _, f := range flatten(dec, codecHelper) {
 		in := f.In
-		if c, ok := ssax.AsCall(in); ok && strings.HasSuffix(c.FullName(), ".Uint32") {
-			if sl, ok := c.Common.Args[1].(*ssa.Slice); ok && f.up(sl.X) == ssa.Value(buff) {
-				evs = append(evs, rd{"prefix", f, sl, in.(ssa.Value)})
+		if c, ok := ssax.AsCall(in); ok && strings.HasSuffix(c.FullName(), ".Uint32") && len(c.Common.Args) > 1 {
+			if rootWin.derives(f, c.Common.Args[1], 0) {
+				evs = append(evs, rd{"prefix", f, c.Common.Args[1], in.(ssa.Value)})
 			}
 		}
 		if cv, ok := in.(*ssa.Convert); ok {
-			if sl, ok := cv.X.(*ssa.Slice); ok && f.up(sl.X) == ssa.Value(buff) {
-				if b, isB := cv.Type().Underlying().(*types.Basic); isB && b.Kind() == types.String {
-					evs = append(evs, rd{"payload", f, sl, cv})
+			if b, isB := cv.Type().Underlying().(*types.Basic); isB && b.Kind() == types.String {
+				if _, isSl := cv.X.Type().Underlying().(*types.Slice); isSl && rootWin.derives(f, cv.X, 0) {
+					evs = append(evs, rd{"payload", f, cv.X, cv})
 				}
 			}
 		}
@@ -679,18 +697,47 @@ func c04Decoder(ctx *core.Ctx, r *RT, pr *bounds.Prover, dec *ssa.Function) {
 		return t
 	}
 	T := func(x rd, v ssa.Value) lin.Term { return TE(e, x, v) }
+	// [lo, hi) of an event in the decoder's buffer; a prefix read covers 4 bytes from the start of its operand
+	WE := func(env *bounds.Env, x rd) (lin.Term, lin.Term) {
+		lo, hi, ok := rootWin.of(env, x.f, x.src, map[ssa.Value]bool{})
+		if !ok {
+			lifted = false
+			return lin.Var("?unliftable"), lin.Var("?unliftable2")
+		}
+		if x.kind == "prefix" {
+			if sl, isSl := ssax.Strip(x.src).(*ssa.Slice); !isSl || sl.High == nil {
+				hi = lo.AddConst(4)
+			}
+		}
+		return lo, hi
+	}
+	W := func(x rd) (lin.Term, lin.Term) { return WE(e, x) }
 	p1, s1, p2, s2 := evs[0], evs[1], evs[2], evs[3]
-	ctx.Check(termEq(T(p1, p1.sl.High).Sub(T(p1, p1.sl.Low)), lin.Const(4)) && termEq(T(p2, p2.sl.High).Sub(T(p2, p2.sl.Low)), lin.Const(4)) && lifted, "C04.S4", dn+" › length prefixes are 4 bytes wide", r.IPos(p1.f.In), "hi − lo = 4", "a length prefix is not read as 4 bytes")
-	ctx.Check(termEq(T(s1, s1.sl.Low), T(p1, p1.sl.High)) && termEq(T(s2, s2.sl.Low), T(p2, p2.sl.High)) && lifted, "C04.S4", dn+" › payload starts where its prefix ended", r.IPos(s1.f.In), "payload lo = prefix hi", "payload is read from an offset other than right after its length prefix")
-	ctx.Check(termEq(T(s1, s1.sl.High).Sub(T(s1, s1.sl.Low)), T(p1, p1.val)) && termEq(T(s2, s2.sl.High).Sub(T(s2, s2.sl.Low)), T(p2, p2.val)) && lifted, "C04.S4", dn+" › payload has exactly the length just read", r.IPos(s1.f.In), "hi − lo = decoded length", "a payload slice does not have the length announced by its prefix")
-	ctx.Check(termEq(T(p2, p2.sl.Low), T(s1, s1.sl.High)) && lifted, "C04.S4", dn+" › value prefix starts where the name ended", r.IPos(p2.f.In), "offset continuity", "gap or overlap between name bytes and value prefix")
+	p1lo, p1hi := W(p1)
+	s1lo, s1hi := W(s1)
+	p2lo, p2hi := W(p2)
+	s2lo, s2hi := W(s2)
+	ctx.Check(termEq(p1hi.Sub(p1lo), lin.Const(4)) && termEq(p2hi.Sub(p2lo), lin.Const(4)) && lifted, "C04.S4", dn+" › length prefixes are 4 bytes wide", r.IPos(p1.f.In), "hi − lo = 4", "a length prefix is not read as 4 bytes")
+	ctx.Check(termEq(s1lo, p1hi) && termEq(s2lo, p2hi) && lifted, "C04.S4", dn+" › payload starts where its prefix ended", r.IPos(s1.f.In), "payload lo = prefix hi", "payload is read from an offset other than right after its length prefix")
+	ctx.Check(termEq(s1hi.Sub(s1lo), T(p1, p1.val)) && termEq(s2hi.Sub(s2lo), T(p2, p2.val)) && lifted, "C04.S4", dn+" › payload has exactly the length just read", r.IPos(s1.f.In), "hi − lo = decoded length", "a payload slice does not have the length announced by its prefix")
+	ctx.Check(termEq(p2lo, s1hi) && lifted, "C04.S4", dn+" › value prefix starts where the name ended", r.IPos(p2.f.In), "offset continuity", "gap or overlap between name bytes and value prefix")
 	okPhi := false
-	// the loop counter: the φ of the decoder whose value is the offset of the first prefix
+	// the loop-carried position: the φ of the decoder (an offset, or the remaining buffer itself)
+	// whose position is where the first prefix is read
+	pos := func(env *bounds.Env, v ssa.Value) (lin.Term, bool) {
+		if _, isSl := v.Type().Underlying().(*types.Slice); isSl {
+			lo, _, ok := rootWin.of(env, flatInstr{In: last}, v, map[ssa.Value]bool{})
+			return lo, ok
+		}
+		if b, isB := v.Type().Underlying().(*types.Basic); isB && b.Info()&types.IsInteger != 0 {
+			return env.Term(v), true
+		}
+		return lin.Term{}, false
+	}
 	var phi *ssa.Phi
-	first := T(p1, p1.sl.Low)
 	ssax.Instrs(dec, func(in ssa.Instruction) {
 		if ph, isPhi := in.(*ssa.Phi); isPhi && phi == nil && inCycle(ph) && lifted {
-			if b, isB := ph.Type().Underlying().(*types.Basic); isB && b.Info()&types.IsInteger != 0 && termEq(e.Term(ph), first) {
+			if t, ok := pos(e, ph); ok && termEq(t, p1lo) {
 				phi = ph
 			}
 		}
@@ -699,11 +746,15 @@ func c04Decoder(ctx *core.Ctx, r *RT, pr *bounds.Prover, dec *ssa.Function) {
 		for i, ed := range phi.Edges {
 			if phi.Block().Dominates(phi.Block().Preds[i]) {
 				be := pr.EnvAt(phi.Block().Preds[i].Instrs[len(phi.Block().Preds[i].Instrs)-1])
-				okPhi = termEq(be.Term(ed), TE(be, s2, s2.sl.High))
+				_, s2hiB := WE(be, s2)
+				if t, ok := pos(be, ed); ok {
+					okPhi = termEq(t, s2hiB)
+				}
 			}
 		}
 	}
-	ctx.Check(okPhi && lifted, "C04.S4", dn+" › next pair starts where the value ended", r.IPos(p1.f.at()), "i = φ(start, value end)", "pairs are not decoded contiguously")
+	_ = s2lo
+	ctx.Check(okPhi && lifted, "C04.S4", dn+" › next pair starts where the value ended", r.IPos(p1.f.at()), "position = φ(start, value end)", "pairs are not decoded contiguously")
 	mu := last.(*ssa.MapUpdate)
 	// the stored key/value are the payload strings (possibly as results of the helper)
 	isPayload := func(v ssa.Value, x rd) bool {
@@ -716,7 +767,7 @@ func c04Decoder(ctx *core.Ctx, r *RT, pr *bounds.Prover, dec *ssa.Function) {
 	ctx.Check(isPayload(mu.Key, s1) && isPayload(mu.Value, s2), "C04.S4", dn+" › map entry is (name payload, value payload)", r.IPos(last), "headers[name] = value", "the decoded pair is stored with name and value swapped or from other data")
 
 	// ---- S6 exactness of reject guards -------------------------------------------------------
-	if endP == nil && !endIsLen {
+	if endP == nil && !endIsLen && !endSlice {
 		ctx.Unresolved("C04.S6", dn+" end bound", "loop bound parameter not found")
 		return
 	}
@@ -727,11 +778,12 @@ func c04Decoder(ctx *core.Ctx, r *RT, pr *bounds.Prover, dec *ssa.Function) {
 		fn     *ssa.Function
 		end    ssa.Value // the end bound: this integer parameter …
 		endLen ssa.Value // … or the length of this slice parameter
+		buf    ssa.Value // the buffer of this scope (the helper's slice parameter)
 		evs    []rd
 		name   string
 	}
-	scopes := []scope{{fn: dec, name: dn}}
-	if endIsLen {
+	scopes := []scope{{fn: dec, name: dn, buf: buff}}
+	if endIsLen || endSlice {
 		scopes[0].endLen = buff
 	} else {
 		scopes[0].end = endP
@@ -745,7 +797,7 @@ func c04Decoder(ctx *core.Ctx, r *RT, pr *bounds.Prover, dec *ssa.Function) {
 		g := x.f.Call.Call.StaticCallee()
 		if !seenHelper[g] {
 			seenHelper[g] = true
-			var end, endLen ssa.Value
+			var end, endLen, hbuf ssa.Value
 			for i, a := range x.f.Call.Call.Args {
 				if i >= len(g.Params) {
 					continue
@@ -753,15 +805,19 @@ func c04Decoder(ctx *core.Ctx, r *RT, pr *bounds.Prover, dec *ssa.Function) {
 				if endP != nil && ssax.Strip(a) == ssa.Value(endP) {
 					end = g.Params[i]
 				}
-				if endIsLen && ssax.Strip(a) == ssa.Value(buff) {
-					endLen = g.Params[i]
+				if _, isSl := g.Params[i].Type().Underlying().(*types.Slice); isSl && rootWin.derives(flatInstr{In: x.f.Call}, a, 0) {
+					hbuf = g.Params[i]
+					// the helper is handed a window that runs to the end of the block: its end is len(parameter)
+					if _, hi, okW := rootWin.of(e, flatInstr{In: x.f.Call}, a, map[ssa.Value]bool{}); okW && (endIsLen || endSlice) && termEq(hi, e.LenOf(buff)) {
+						endLen = g.Params[i]
+					}
 				}
 			}
 			if end == nil && endLen == nil {
 				ctx.Unresolved("C04.S6", ssax.Name(g)+" end bound", "the helper does not receive the decoder's end bound")
 				return
 			}
-			sc := scope{fn: g, end: end, endLen: endLen, name: ssax.Name(g)}
+			sc := scope{fn: g, end: end, endLen: endLen, buf: hbuf, name: ssax.Name(g)}
 			for _, y := range evs {
 				if y.f.Call == x.f.Call {
 					sc.evs = append(sc.evs, y)
@@ -790,11 +846,12 @@ func c04Decoder(ctx *core.Ctx, r *RT, pr *bounds.Prover, dec *ssa.Function) {
 				}
 				pass := b.Succs[1-i]
 				// protected read: the first slice (in program order) whose block is dominated by the pass edge
-				var prot *ssa.Slice
+				var prot *rd
 				protName := ""
-				for _, x := range sc.evs {
-					if pass == x.sl.Block() || pass.Dominates(x.sl.Block()) {
-						prot = x.sl
+				for k := range sc.evs {
+					x := sc.evs[k]
+					if pass == x.f.In.Block() || pass.Dominates(x.f.In.Block()) {
+						prot = &sc.evs[k]
 						protName = names[x.f.In]
 						if sc.fn != dec {
 							protName = map[string]string{"prefix": "length prefix", "payload": "string bytes"}[x.kind]
@@ -808,7 +865,21 @@ func c04Decoder(ctx *core.Ctx, r *RT, pr *bounds.Prover, dec *ssa.Function) {
 				n++
 				env := pr.EnvAt(iff)
 				env.AddCond(iff.Cond, i == 0)
-				lo, hi := env.Term(prot.Low), env.Term(prot.High)
+				// the read, in the coordinates of this scope's buffer
+				w := rootWin
+				if sc.fn != dec {
+					w = c04win{root: sc.buf}
+				}
+				lo, hi, okW := w.of(env, flatInstr{In: prot.f.In}, prot.src, map[ssa.Value]bool{})
+				if !okW {
+					ctx.Undecided("C04.S6", sc.name+sprintf(" › reject guard #%d", n), r.IPos(iff), "cannot express the protected read as a window of the buffer")
+					continue
+				}
+				if prot.kind == "prefix" {
+					if sl, isSl := ssax.Strip(prot.src).(*ssa.Slice); !isSl || sl.High == nil {
+						hi = lo.AddConst(4)
+					}
+				}
 				var end lin.Term
 				if sc.end != nil {
 					end = env.Term(sc.end)
@@ -887,4 +958,119 @@ func rejectReturn(ret *ssa.Return) bool {
 		return isC && c.Value != nil && c.Value.String() == "false"
 	}
 	return false
+}
+
+// c04win expresses slice values derived from a root buffer as windows [lo, hi)
+// of that buffer: the root itself is [0, len(root)); x[a:b] of a window [l, h)
+// is [l+a, l+b) (or [l+a, h) without an upper bound); a parameter of a helper
+// is the window of the argument; a slice result of a helper is the window of
+// the value it returns on its successful return; a loop-carried slice
+// (buff = rest) is [lo_φ, h) with a symbolic start.
+type c04win struct {
+	root ssa.Value
+}
+
+// derives: v is (syntactically) derived from the root by slicing, helper calls and loop φs.
+func (w c04win) derives(f flatInstr, v ssa.Value, depth int) bool {
+	if depth > 8 {
+		return false
+	}
+	v = ssax.Strip(v)
+	if v == w.root {
+		return true
+	}
+	switch x := v.(type) {
+	case *ssa.Slice:
+		return w.derives(f, x.X, depth+1)
+	case *ssa.Parameter:
+		if f.Call != nil {
+			g := f.Call.Call.StaticCallee()
+			for i, q := range g.Params {
+				if q == x && i < len(f.Call.Call.Args) {
+					return w.derives(flatInstr{In: f.Call}, f.Call.Call.Args[i], depth+1)
+				}
+			}
+		}
+	case *ssa.Phi:
+		for _, ed := range x.Edges {
+			if ssax.Strip(ed) == w.root {
+				return true
+			}
+		}
+		for _, ed := range x.Edges {
+			if w.derives(f, ed, depth+3) {
+				return true
+			}
+		}
+	case *ssa.Extract, *ssa.Call:
+		if call, inner, ok := down(v); ok {
+			return w.derives(flatInstr{In: call, Call: call}, inner, depth+1)
+		}
+	}
+	return false
+}
+
+func (w c04win) of(env *bounds.Env, f flatInstr, v ssa.Value, seen map[ssa.Value]bool) (lo, hi lin.Term, ok bool) {
+	v = ssax.Strip(v)
+	if v == w.root {
+		return lin.Const(0), env.LenOf(w.root), true
+	}
+	if seen[v] {
+		return lin.Term{}, lin.Term{}, false
+	}
+	switch x := v.(type) {
+	case *ssa.Slice:
+		bl, bh, okB := w.of(env, f, x.X, seen)
+		if !okB {
+			return lin.Term{}, lin.Term{}, false
+		}
+		lo = bl
+		if x.Low != nil {
+			t, okT := f.term(env, x.Low)
+			if !okT {
+				return lin.Term{}, lin.Term{}, false
+			}
+			lo = bl.Add(t)
+		}
+		hi = bh
+		if x.High != nil {
+			t, okT := f.term(env, x.High)
+			if !okT {
+				return lin.Term{}, lin.Term{}, false
+			}
+			hi = bl.Add(t)
+		}
+		return lo, hi, true
+	case *ssa.Parameter:
+		if f.Call != nil {
+			g := f.Call.Call.StaticCallee()
+			for i, q := range g.Params {
+				if q == x && i < len(f.Call.Call.Args) {
+					return w.of(env, flatInstr{In: f.Call}, f.Call.Call.Args[i], seen)
+				}
+			}
+		}
+	case *ssa.Phi:
+		// loop-carried remainder: symbolic start; the end is the root's end when every way in keeps it
+		seen[v] = true
+		rootHi := env.LenOf(w.root)
+		for _, ed := range x.Edges {
+			if ssax.Strip(ed) == w.root || ssax.Strip(ed) == v {
+				continue
+			}
+			_, eh, okE := w.of(env, f, ed, seen)
+			if okE && !termEq(eh, rootHi) {
+				return lin.Term{}, lin.Term{}, false
+			}
+			// an edge that cannot be expressed here (its helper result is not known to have succeeded at
+			// this point) is judged where it is known: the continuity check evaluates it at the back edge
+		}
+		delete(seen, v)
+		return lin.Var("lo(" + x.Name() + ")"), rootHi, true
+	case *ssa.Extract, *ssa.Call:
+		if call, inner, okD := down(v); okD {
+			return w.of(env, flatInstr{In: call, Call: call}, inner, seen)
+		}
+	}
+	return lin.Term{}, lin.Term{}, false
 }
